@@ -1,0 +1,66 @@
+//! Verification seams, compiled only with the `verif-hooks` cargo feature.
+//!
+//! The library reads the environment in exactly two places: the wall clock (sessions) and
+//! the process RNG (handshake).  With the feature enabled a simulator owns both; with it
+//! disabled (the default) none of this code exists.
+
+use std::cell::{Cell, RefCell};
+use std::time::Duration;
+
+thread_local! {
+    static CLOCK_NS: Cell<u64> = Cell::new(0);
+    static FILL_HOOK: RefCell<Option<Box<dyn FnMut(&mut [u8])>>> = RefCell::new(None);
+}
+
+/// Sets the clock (nanoseconds since an arbitrary origin) read by sessions on this thread.
+pub fn set_clock_ns(now: u64) {
+    CLOCK_NS.with(|cell| cell.set(now));
+}
+
+/// Reads the clock set by `set_clock_ns()`.
+pub fn clock_ns() -> u64 {
+    CLOCK_NS.with(|cell| cell.get())
+}
+
+/// Error returned by `SystemTime::elapsed()` when the clock is behind the recorded instant.
+#[derive(Debug)]
+pub struct ClockWentBackwards;
+
+/// Stand-in for `std::time::SystemTime` offering the two operations the sessions use.
+#[derive(Clone, Copy, Debug)]
+pub struct SystemTime(u64);
+
+impl SystemTime {
+    pub fn now() -> SystemTime {
+        SystemTime(clock_ns())
+    }
+
+    pub fn elapsed(&self) -> Result<Duration, ClockWentBackwards> {
+        let now = clock_ns();
+        if now < self.0 {
+            return Err(ClockWentBackwards);
+        }
+
+        let diff = now - self.0;
+        Ok(Duration::new(
+            diff / 1_000_000_000,
+            (diff % 1_000_000_000) as u32,
+        ))
+    }
+}
+
+/// Installs (or removes) the callback that supplies the handshake's "random" bytes.
+pub fn set_fill_hook(hook: Option<Box<dyn FnMut(&mut [u8])>>) {
+    FILL_HOOK.with(|cell| *cell.borrow_mut() = hook);
+}
+
+/// Fills the buffer from the installed hook; returns false (buffer untouched) without one.
+pub fn fill_random(buffer: &mut [u8]) -> bool {
+    FILL_HOOK.with(|cell| match *cell.borrow_mut() {
+        Some(ref mut hook) => {
+            hook(buffer);
+            true
+        }
+        None => false,
+    })
+}
